@@ -92,6 +92,9 @@ pub enum PF {
     Stall { thread: String, n: u64, ms: u64 },
     /// the k-th send_to on tracker socket `sock` fails: kind 0 WouldBlock, 1 ENOBUFS, 2 other
     SendFail { sock: u8, k: u64, kind: u8 },
+    /// the k-th recv_from on tracker socket `sock` fails with a transient error and consumes nothing:
+    /// kind 0 EINTR, 1 ECONNREFUSED (ICMP error queued on the socket), 2 ENOMEM
+    RecvFail { sock: u8, k: u64, kind: u8 },
 }
 
 #[derive(Clone, Debug, Serialize, Deserialize)]
@@ -127,6 +130,10 @@ pub struct Scn {
     /// privileges.drop_privileges: the socket workers rendezvous at a barrier after binding (the chroot itself is not simulated)
     #[serde(default)]
     pub drop_priv: bool,
+    /// statistics.run_prometheus_endpoint: the metrics worker (a simulated exporter thread, rt::metrics) is spawned
+    /// and registered by the real run(); the statistics collector's prometheus branch (gauges) runs for real
+    #[serde(default)]
+    pub prometheus: bool,
 }
 
 pub fn info_hash(t: u8) -> H20 {
@@ -246,6 +253,8 @@ fn decode(b: &[u8]) -> Decoded {
 struct Collected {
     run_returned: Option<(u64, Result<(), String>)>,
     html: Option<String>,
+    /// gauges a prometheus scrape would show at the end of the run (recording recorder)
+    gauges: BTreeMap<String, f64>,
     export: Option<String>,
     /// (time ns, seq) at which the operator rewrote the file and raised the signal; list it wrote
     reloads: Vec<(u64, u64, Option<Vec<H20>>)>,
@@ -293,6 +302,7 @@ fn build_config(scn: &Scn, dir: &std::path::Path) -> Config {
     // the per-client table is only rendered together with the histograms
     c.statistics.torrent_peer_histograms = scn.peer_clients;
     c.statistics.html_file_path = dir.join("statistics.html");
+    c.statistics.run_prometheus_endpoint = scn.prometheus;
     c.scrape_exports.enable_scrape_exports = scn.exports;
     c.scrape_exports.frequency = 1;
     c.scrape_exports.path = dir.join("export.txt");
@@ -463,6 +473,7 @@ fn sim_root(scn: Arc<Scn>, col: Arc<Mutex<Collected>>) {
     // fault plan
     let mut plan = fault::Plan::default();
     let mut send_faults = BTreeMap::new();
+    let mut recv_faults = BTreeMap::new();
     let mut sig_close: Option<u64> = None;
     for f in &scn.faults {
         match f {
@@ -473,6 +484,9 @@ fn sim_root(scn: Arc<Scn>, col: Arc<Mutex<Collected>>) {
             PF::SignalsClose { ms } => sig_close = Some(*ms),
             PF::SpawnFail { thread } => plan.fail_spawn.push(thread.clone()),
             PF::Stall { thread, n, ms } => plan.stall_at.push((thread.clone(), *n, ms * 1_000_000)),
+            PF::RecvFail { sock, k, kind } => {
+                recv_faults.insert((*sock as usize, *k), kind % 3);
+            }
             PF::SendFail { sock, k, kind } => {
                 send_faults.insert((*sock as usize, *k), match kind % 3 {
                     0 => SendFault::WouldBlock,
@@ -488,6 +502,7 @@ fn sim_root(scn: Arc<Scn>, col: Arc<Mutex<Collected>>) {
     }
     fault::set_plan(plan);
     sudp::set_send_faults(send_faults);
+    sudp::set_recv_faults(recv_faults);
     sudp::set_spurious_poll_permille(scn.spurious_poll_permille);
     {
         let mut g = col.lock().unwrap();
@@ -554,6 +569,7 @@ fn sim_root(scn: Arc<Scn>, col: Arc<Mutex<Collected>>) {
     let mut g = col.lock().unwrap();
     g.html = std::fs::read_to_string(dir.join("statistics.html")).ok();
     g.export = std::fs::read_to_string(dir.join("export.txt")).ok();
+    g.gauges = crate::recorder::gauges();
     g.end_ns = engine::now();
     drop(g);
     let _ = run_handle;
@@ -677,6 +693,10 @@ impl Harness for UdpSys {
         let access_list: Vec<u8> = (0..r.below(4)).map(|_| r.below(5) as u8).collect();
         let c20 = prop == "C20";
         let stats_interval = if c20 || r.chance(300) { 5 } else { 0 };
+        // knobs added later draw from a stream of their own so that older seeds keep their scenarios
+        let mut r2 = Prng::stream(seed, "scenario-metrics");
+        let prometheus = r2.chance(if prop == "C19" { 600 } else { 350 });
+        let stats_interval = if prometheus && prop == "C19" && r2.chance(500) { 5 } else { stats_interval };
         let faulty_net = prop == "C12" || (prop != "C19" && r.chance(400));
         let n_clients = if c18 { 2 } else { r.range(2, if tier == Tier::Quick { 5 } else { 8 }) as usize };
         let n_torrents = r.range(1, 4) as u8;
@@ -780,12 +800,16 @@ impl Harness for UdpSys {
             threads.push("signals".into());
             if stats_interval > 0 {
                 threads.push("statistics".into());
+                if prometheus {
+                    threads.push("prometheus".into());
+                }
             }
             if r.chance(850) {
                 let th = r.pick(&threads).clone();
                 let f = match r.below(10) {
-                    0 if th.starts_with("socket") => PF::BindFail { thread: th },
+                    0 if th.starts_with("socket") || th == "prometheus" => PF::BindFail { thread: th },
                     1 if th.starts_with("socket") => PF::EndLoop { thread: th, n: *r.pick(&[1u64, 5, 50, 400]) },
+                    1 if th == "prometheus" => PF::EndLoop { thread: th, n: *r.pick(&[1u64, 2, 3, 5]) },
                     2 if th == "signals" => PF::SignalsClose { ms: r.range(0, 20000) },
                     3 => PF::SpawnFail { thread: th },
                     4 | 5 => PF::PanicAt { thread: th, ms: r.range(0, 25000) },
@@ -797,6 +821,9 @@ impl Harness for UdpSys {
             // benign environment faults: failing sends (resend buffer), stalls
             for _ in 0..r.range(1, 4) {
                 faults.push(PF::SendFail { sock: r.below(4) as u8, k: r.range(1, 12), kind: r.below(3) as u8 });
+            }
+            for _ in 0..r2.below(4) {
+                faults.push(PF::RecvFail { sock: r2.below(4) as u8, k: r2.range(1, 40), kind: r2.below(3) as u8 });
             }
             if r.chance(300) {
                 faults.push(PF::Stall { thread: format!("socket-{:02}", r.range(1, socket_workers as u64)), n: r.range(5, 200), ms: r.range(100, 3000) });
@@ -829,6 +856,7 @@ impl Harness for UdpSys {
             faults,
             early,
             drop_priv: r.chance(300),
+            prometheus,
         }
     }
 
@@ -930,6 +958,7 @@ impl Harness for UdpSys {
 
 fn execute_once(scn: &Scn, prop: &str, stats: &mut Stats, entropy: u64) -> Outcome {
     aquatic_verif_rt::reset_all(entropy);
+    crate::recorder::reset();
     foldhash::verif_reset_seed_counter();
     let col = Arc::new(Mutex::new(Collected::default()));
     let scn_arc = Arc::new(scn.clone());
@@ -1018,7 +1047,7 @@ fn execute_once(scn: &Scn, prop: &str, stats: &mut Stats, entropy: u64) -> Outco
                 }
                 PF::SpawnFail { thread } => {
                     // statistics thread is only spawned when statistics are active
-                    if thread != "statistics" || scn.stats_interval > 0 {
+                    if (thread != "statistics" || scn.stats_interval > 0) && (thread != "prometheus" || (scn.stats_interval > 0 && scn.prometheus)) {
                         death = Some((0, format!("{} (spawn failed)", thread)));
                     }
                 }
@@ -1051,6 +1080,9 @@ fn execute_once(scn: &Scn, prop: &str, stats: &mut Stats, entropy: u64) -> Outco
             }
             (Some((d, who)), Some((t, r))) => {
                 stats.probe("worker-death-observed");
+                if who.starts_with("prometheus") {
+                    stats.probe("metrics-worker-death-observed");
+                }
                 if r.is_ok() {
                     violations.push(Violation::new("C19", "dead-worker-ends-run", "run-returned-ok", format!("{} died at {} ms and run() returned Ok(())", who, d / 1_000_000)));
                 } else if *t > d + 10_000_000_000 {
@@ -1565,6 +1597,23 @@ fn judge_reports(o: &mut Oracle, col: &Collected, stats: &mut Stats) {
             o.fail(&["C20"], "report-totals", "html-totals", format!("statistics page shows torrents/peers {:?} but stored are {:?} (order: torrents v4, v6; peers v4, v6)", nums, want));
             return;
         }
+        if scn.prometheus {
+            // the same collector pass feeds the prometheus gauges: a scrape of the metrics endpoint must show the same totals
+            let g = |name: &str, fam: &str| col.gauges.get(&format!("{}{{ip_version={}}}", name, fam)).copied();
+            let mut got = Vec::new();
+            for name in ["aquatic_torrents", "aquatic_peers"] {
+                for fam in ["4", "6"] {
+                    if (fam == "4" && v4_active) || (fam == "6" && v6_active) {
+                        got.push(g(name, fam).map(|v| v as u64));
+                    }
+                }
+            }
+            stats.probe("prometheus-gauges-judged");
+            if scn.layout % 4 != 3 && got != want.iter().map(|v| Some(*v)).collect::<Vec<_>>() {
+                o.fail(&["C20"], "report-totals", "prometheus-totals", format!("prometheus gauges aquatic_torrents / aquatic_peers show {:?} but stored are {:?} (order: torrents v4, v6; peers v4, v6)", got, want));
+                return;
+            }
+        }
         if scn.peer_clients {
             // per-client table
             let mut got: BTreeMap<String, u64> = BTreeMap::new();
@@ -1594,6 +1643,16 @@ fn judge_reports(o: &mut Oracle, col: &Collected, stats: &mut Stats) {
             if got != want {
                 o.fail(&["C20"], "client-tally", "html-client-table", format!("per-client table {:?} but the stored peers carry {:?}", got, want));
                 return;
+            }
+            if scn.prometheus {
+                // a client without peers keeps its last gauge until the exporter's idle timeout drops it: only clients with peers are judged
+                for (name, n) in &want {
+                    let v = col.gauges.get(&format!("aquatic_peer_clients{{client={}}}", name)).copied();
+                    if v.map(|v| v as u64) != Some(*n) {
+                        o.fail(&["C20"], "client-tally", "prometheus-client-gauge", format!("prometheus gauge aquatic_peer_clients for {:?} is {:?} but {} stored peer ids belong to that client", name, v, n));
+                        return;
+                    }
+                }
             }
         }
     }
